@@ -73,6 +73,15 @@ def TimeAgrees (p : Parsed) (t : Time) : Prop :=
   optIs p.hour_div_12 (hourOf t / 12) ∧ optIs p.hour_mod_12 (hourOf t % 12) ∧
   optIs p.minute (minuteOf t) ∧ secondIs p.second t ∧ nanoIs p.nanosecond t
 
+/-- the time of day `t` agrees with every SUPPLIED time field of `p` (nothing is said about omitted
+fields: in the timestamp path of the date-time resolver they are filled in from the timestamp) -/
+def TimeAgreesSupplied (p : Parsed) (t : Time) : Prop :=
+  optIs p.hour_div_12 (hourOf t / 12) ∧ optIs p.hour_mod_12 (hourOf t % 12) ∧
+  optIs p.minute (minuteOf t) ∧
+  (∀ x, p.second = some x →
+    if x = 60 then secondOf t = 59 ∧ 1000000000 ≤ t.frac else secondOf t = x ∧ t.frac < 1000000000) ∧
+  (∀ x, p.nanosecond = some x → t.frac % 1000000000 = x)
+
 /-- the documented sufficient combination for a time: hour (both halves), minute, and the second
 whenever a nanosecond is given -/
 def TimeSufficient (p : Parsed) : Prop :=
